@@ -23,6 +23,7 @@ func registerMore(m map[string]propSpec) {
 	m["C15"] = propSpec{Level: "model_checking", Engines: []engine{{Harness: "stubsub", Overlay: "base", Shards: -1}}}
 	m["C19"] = propSpec{Level: "model_checking", Engines: []engine{
 		{Harness: "adapt", Overlay: "base", Name: "sched", Shards: 8},
+		{Harness: "adapt", Overlay: "base", Name: "race", Race: true},
 		{Harness: "unsol", Overlay: "base", Name: "content"},
 	}}
 	m["C17"] = propSpec{Level: "fault_enumeration", Engines: []engine{
@@ -41,5 +42,6 @@ func registerMore(m map[string]propSpec) {
 		{Harness: "adapt", Overlay: "base", Name: "masks"},
 		{Harness: "adapt", Overlay: "base", Name: "order"},
 		{Harness: "adapt", Overlay: "base", Name: "sched", Shards: 8},
+		{Harness: "adapt", Overlay: "base", Name: "race", Race: true},
 	}}
 }
